@@ -26,16 +26,27 @@ func run(c perco.GCase, r *pbt.Rec) error {
 	return perco.Execute(c.Case, r, 18)
 }
 
+func genPair(t *rapid.T) perco.PCase {
+	return perco.GeneratePair(t, perco.Profile{MaxSteps: 14, WRead: 1, WMaint: 2, WDup: 1, WCheck: 3, WPartial: 1, Excl: perco.OpenExclusions()})
+}
+
+func runPair(c perco.PCase, r *pbt.Rec) error {
+	r.Excluded(c.Excl)
+	return perco.ExecutePair(c, r, 18)
+}
+
 func TestCheck(t *testing.T) {
 	s := &pbt.Suite{ID: "C18", Level: "exploration",
-		Rule: "Same history machine as C17 with an adversarial mix (verbatim re-sends of earlier requests, late prewrites, commits/rollbacks/resolves of arbitrary key subsets in any order, CheckTxnStatus around expiry with and without rollback-if-not-exist, up to 5 transactions contending for 1-4 keys). Oracles: (1) a Commit/ResolveLock-commit that names a key the transaction already rolled back returns a key error; (2) any request the model classifies as changing nothing (repeat of an applied request, rollback after commit, commit after rollback, commit without lock, status check without effect) leaves locks, min-commit-ts, write records and rollback records of the whole DB unchanged (full internal-iterator dump before/after; plus prewritten data for verbatim re-sends); (3) after every step the set of committed write records (key,kind,start,commit) read from the DB equals the model's, so a refused/rolled-back transaction leaves no write and a committed one is never undone; (4) no key ever has two committed put/delete records with overlapping [start,commit]; (5) a prewrite must be refused when the key is locked by another transaction, when a newer committed put/delete overlaps, or when the transaction is already decided on the key. Partial requests: a hotlimit step sets Options.WriteHotKeyLimit so that a Commit is refused between its two engine writes (commit record written, lock removal refused with ErrHotKeyWriteThrottle, response Retryable) and lifts it again; after a Retryable response the model re-reads lock and write records of the touched keys from the store and every later request (rollback / resolve / check-txn-status / re-applied commit on the leftover lock) is judged against that state. Non-trivial = the history contains at least one adversarial ordering whose second request reached the engine (labels adv:*); distinct by case content.",
+		Rule: "Same history machine as C17 with an adversarial mix (verbatim re-sends of earlier requests, late prewrites, commits/rollbacks/resolves of arbitrary key subsets in any order, CheckTxnStatus around expiry with and without rollback-if-not-exist, up to 5 transactions contending for 1-4 keys). Oracles: (1) a Commit/ResolveLock-commit that names a key the transaction already rolled back returns a key error; (2) any request the model classifies as changing nothing (repeat of an applied request, rollback after commit, commit after rollback, commit without lock, status check without effect) leaves locks, min-commit-ts, write records and rollback records of the whole DB unchanged (full internal-iterator dump before/after; plus prewritten data for verbatim re-sends); (3) after every step the set of committed write records (key,kind,start,commit) read from the DB equals the model's, so a refused/rolled-back transaction leaves no write and a committed one is never undone; (4) no key ever has two committed put/delete records with overlapping [start,commit]; (5) a prewrite must be refused when the key is locked by another transaction, when a newer committed put/delete overlaps, or when the transaction is already decided on the key. Partial requests: a hotlimit step sets Options.WriteHotKeyLimit so that a Commit is refused between its two engine writes (commit record written, lock removal refused with ErrHotKeyWriteThrottle, response Retryable) and lifts it again; after a Retryable response the model re-reads lock and write records of the touched keys from the store and every later request (rollback / resolve / check-txn-status / re-applied commit on the leftover lock) is judged against that state. Non-trivial = the history contains at least one adversarial ordering whose second request reached the engine (labels adv:*); Spec parked (concurrent pair): after a sequential prefix two requests A,B (CheckTxnStatus with a min-commit-ts push, Prewrite, Commit, ResolveLock, BatchRollback; usually on a currently locked common key, 10% on disjoint keys) are run through the percolator package functions: the harness holds the latches of the keys of A on the shared latch.Manager, starts A (a correct A parks in Acquire before reading anything; observed through its goroutine stack), runs B to completion on a separate manager, releases, joins A. Oracle: responses of A and B and the final lock (owner, min commit ts) and committed write records must be explained by the reference model for order A;B or for order B;A. Non-trivial for this spec = A was observed parked and B changed the lock record of a key of A. distinct by case content.",
 		Assumptions: []string{
+			"parked spec: a request blocked in latch.Manager.Acquire has not read anything yet iff the implementation takes its latches before reading; the harness never judges by wall clock — if A neither parks nor returns within 3 s the pair is skipped (label pair:inconclusive-not-parked)",
 			"a request answered with a Retryable key error took effect as a prefix of its engine writes; its response and partial effect are not judged (the model resynchronises from the store), all later requests are",
 			"'once any key is rolled back, committing fails' is judged per key: a Commit fails iff it names a rolled-back key; cross-key atomicity is the client protocol's job (primary first), no single-key state machine can refuse Commit(a) because b was rolled back",
 			"batch requests are applied key by key in request order up to the first key error (what kv.Apply does and its callers observe)",
 			"where the properties do not fix a response (prewrite above a foreign rollback/lock-only record, commit of a never-prewritten key, BatchRollback/CheckTxnStatus error details) the model follows the observed response and only the resulting state is compared",
 		},
 	}
-	pbt.Add(s, &pbt.Spec[perco.GCase]{Name: "outcomes", Gen: gen, Run: run, Quick: 1200, Thorough: 36000, Shards: 16})
+	pbt.Add(s, &pbt.Spec[perco.GCase]{Name: "outcomes", Gen: gen, Run: run, Quick: 1000, Thorough: 36000, Shards: 16})
+	pbt.Add(s, &pbt.Spec[perco.PCase]{Name: "parked", Gen: genPair, Run: runPair, Quick: 400, Thorough: 8000, Shards: 16})
 	s.Main(t)
 }
